@@ -10,7 +10,7 @@ units of 1/4096 (the harness only uses multiples of 1/64 of small magnitude, for
 its exact inverse, see harness/cont_common.py).  A radius is an `Int` in units of 1/64 and is
 compared squared.
 
-The model follows the code after the repairs S3, S20 (legacy) and S17, S18, S19 (experimental).
+The model follows the code after the repairs S3, S20, CS1 (legacy) and S17, S18, S19, CS2 (experimental).
 numpy's `argpartition` is a parameter (`argpart`) of the k-nearest functions; the theorems
 assume only its documented post-condition.
 -/
@@ -25,6 +25,7 @@ inductive Err where
   | index    -- IndexError
   | value    -- ValueError (argpartition: kth out of bounds)
   | type     -- TypeError (arithmetic on a `None` position)
+  | attr     -- AttributeError (`agent.space` is `None` after `agent.remove()`)
 deriving Repr, DecidableEq
 
 /-- `abs` -/
@@ -173,6 +174,9 @@ def getNeighbors (s : LSpace) (p : P2) (r : Int) (incl : Bool) : LSpace × Excep
     | none => (s1, .error .key)
     | some ags => (s1, .ok ags)
 
+/-- `agent.pos = p` written by the user directly: a plain attribute — nothing is validated and the space is not told -/
+def lpoke (s : LSpace) (a : Aid) (p : P2) : LSpace := { s with pos := upd s.pos a (some p) }
+
 inductive LOp where
   | place (a : Aid) (p : P2)
   | move (a : Aid) (p : P2)
@@ -230,10 +234,12 @@ structure ESpace where
   active : List Aid         -- active_agents
   a2i : Aid → Option Nat    -- _agent_to_index
   i2a : Nat → Option Aid    -- _index_to_agent (never read by the code)
+  gone : Aid → Bool         -- agent objects whose `space` attribute is `None` (after `agent.remove()`)
 
 /-- uninitialised rows (`np.empty`) are modelled by the empty vector -/
 def einit (c : ECfg) (cap : Nat) : ESpace :=
-  { cfg := c, buf := fun _ => [], cap := cap, n := 0, active := [], a2i := fun _ => none, i2a := fun _ => none }
+  { cfg := c, buf := fun _ => [], cap := cap, n := 0, active := [], a2i := fun _ => none, i2a := fun _ => none,
+    gone := fun _ => false }
 
 /-- number of rows of the view `agent_positions = _agent_positions[0:_n_agents]` -/
 def ESpace.view (s : ESpace) : Nat := min s.n s.cap
@@ -359,6 +365,58 @@ def nearestNeighbors (argpart : List Int → Nat → List Nat) (s : ESpace) (a :
     | .error e => .error e
     | .ok res => .ok (res.filter (fun ad => ad.1 ≠ a))
 
+/-! ### the agent-level API
+Every `ContinuousSpaceAgent` method first goes through `self.space`, which `remove()` sets to `None`:
+on a removed agent object each of them raises `AttributeError` before anything else happens. -/
+
+/-- `agent.position` (getter; after repair CS2 the row is returned as a copy) -/
+def agentGet (s : ESpace) (a : Aid) : Except Err Pos := if s.gone a then .error .attr else getPos s a
+
+/-- `agent.position = value` -/
+def agentSet (s : ESpace) (a : Aid) (p : Pos) : Except Err ESpace :=
+  if s.gone a then .error .attr else setPos s a p
+
+/-- `agent.remove()`: `Agent.remove` (deregistration from the model, idempotent), `space._remove_agent(self)`,
+    then `self.space = None` -/
+def agentRemove (s : ESpace) (a : Aid) : Except Err ESpace :=
+  if s.gone a then .error .attr
+  else match removeAgent s a with
+    | .error e => .error e
+    | .ok s' => .ok { s' with gone := upd s'.gone a true }
+
+/-- `agent.get_neighbors_in_radius(r)` -/
+def agentNir (s : ESpace) (a : Aid) (r : Int) : Except Err (List (Aid × Int)) :=
+  if s.gone a then .error .attr else neighborsInRadius s a r
+
+/-- `agent.get_nearest_neighbors(k)` -/
+def agentNn (argpart : List Int → Nat → List Nat) (s : ESpace) (a : Aid) (k : Nat) :
+    Except Err (List (Aid × Int)) :=
+  if s.gone a then .error .attr else nearestNeighbors argpart s a k
+
+/-- component-wise sum (`ndarray.__iadd__`) -/
+def vadd : Pos → Pos → Pos
+  | x :: xs, y :: ys => (x + y) :: vadd xs ys
+  | _, _ => []
+
+/-- `agent.position += v`: the getter (a copy of the row), `+=` on that copy, then the setter with the sum —
+    so the sum is validated / wrapped like any assigned value before anything is written -/
+def agentIadd (s : ESpace) (a : Aid) (v : Pos) : Except Err ESpace :=
+  match agentGet s a with
+  | .error e => .error e
+  | .ok p => agentSet s a (vadd p v)
+
+/-- `agent.position[j] = x`: a write into the copy the getter returned; the space is not involved
+    (the result type has no state) -/
+def agentPoke (s : ESpace) (a : Aid) (j : Nat) : Except Err Unit :=
+  match agentGet s a with
+  | .error e => .error e
+  | .ok p => if j < p.length then .ok () else .error .index
+
+/-- `space.agent_positions[i] = p`: a user write through the public view of the filled rows — no bounds check,
+    no torus wrap, no agent involved (`IndexError` beyond the view) -/
+def rawWrite (s : ESpace) (i : Nat) (p : Pos) : Except Err ESpace :=
+  if i < s.view then .ok { s with buf := upd s.buf i p } else .error .index
+
 /-- rows selected by `agents=[…]`: `_agent_positions[[_agent_to_index[a] for a in agents]]` -/
 def rowsOf (s : ESpace) (sub : List Aid) : Except Err (List (Aid × Pos)) :=
   match collect (sub.map (fun a => (s.a2i a).map (fun i => (a, i)))) with
@@ -381,15 +439,142 @@ inductive EOp where
   | new (a : Aid)
   | set (a : Aid) (p : Pos)
   | remove (a : Aid)
+  | iadd (a : Aid) (v : Pos)
+  | raw (i : Nat) (p : Pos)   -- `space.agent_positions[i] = p`: a user write through the public view
 deriving Repr, DecidableEq
 
 /-- state after one call.  Agent objects are created fresh by the constructor, so `new a`
-    for an agent that is in the space has no counterpart in the code and is ignored. -/
+    for an agent object that exists already (in the space or removed) has no counterpart in the
+    code and is ignored. -/
 def estep (s : ESpace) : EOp → ESpace
-  | .new a => if (s.a2i a).isSome then s else addAgent s a
-  | .set a p => match setPos s a p with | .ok s' => s' | .error _ => s
-  | .remove a => match removeAgent s a with | .ok s' => s' | .error _ => s
+  | .new a => if (s.a2i a).isSome || s.gone a then s else addAgent s a
+  | .set a p => match agentSet s a p with | .ok s' => s' | .error _ => s
+  | .remove a => match agentRemove s a with | .ok s' => s' | .error _ => s
+  | .iadd a v => match agentIadd s a v with | .ok s' => s' | .error _ => s
+  | .raw i p => match rawWrite s i p with | .ok s' => s' | .error _ => s
 
 def erun (c : ECfg) (cap : Nat) (ops : List EOp) : ESpace := ops.foldl estep (einit c cap)
+
+/-! ### vectors of the wrong length
+The code never checks the length of a point; numpy decides.  Against the `nd ≥ 2` columns of the space a one-element vector
+broadcasts (it stands for its `nd`-fold repetition), any other wrong length raises `ValueError` — except that the distances of a
+bounded (non-torus) space come from `scipy.cdist`, which insists on `nd` columns.  (On a 1-D space numpy would broadcast the
+space's single column against a longer vector instead: not modelled, the functions below are about `nd ≥ 2`.) -/
+
+/-- the vector numpy computes with when `p` meets the `nd` columns of the space -/
+def bcast (nd : Nat) (p : Pos) : Except Err Pos :=
+  if p.length = nd then .ok p
+  else match p with
+    | [x] => .ok (List.replicate nd x)
+    | _ => .error .value
+
+/-- `ndims` -/
+def ESpace.nd (s : ESpace) : Nat := s.cfg.dims.length
+
+/-- `agent.position = p` for a `p` of any length (`in_bounds` / `torus_correct` broadcast or raise first) -/
+def agentSetV (s : ESpace) (a : Aid) (p : Pos) : Except Err ESpace :=
+  if s.gone a then .error .attr
+  else match bcast s.nd p with
+    | .error e => .error e
+    | .ok q => setPos s a q
+
+/-- `agent.position += v` for a `v` of any length (the getter, then `+=` on the copy, then the setter) -/
+def agentIaddV (s : ESpace) (a : Aid) (v : Pos) : Except Err ESpace :=
+  match agentGet s a with
+  | .error e => .error e
+  | .ok q =>
+    match bcast s.nd v with
+    | .error e => .error e
+    | .ok v' => agentSet s a (vadd q v')
+
+/-- `space.agent_positions[i] = p` for a `p` of any length (the index is looked at first) -/
+def rawWriteV (s : ESpace) (i : Nat) (p : Pos) : Except Err ESpace :=
+  if i < s.view then
+    match bcast s.nd p with
+    | .error e => .error e
+    | .ok q => .ok { s with buf := upd s.buf i q }
+  else .error .index
+
+/-- the point a query computes with: distances of a non-torus space go through `cdist` (exact length or `ValueError`),
+    everything else through numpy broadcasting -/
+def queryPoint (s : ESpace) (viaCdist : Bool) (pt : Pos) : Except Err Pos :=
+  if viaCdist && !s.cfg.torus then (if pt.length = s.nd then .ok pt else .error .value) else bcast s.nd pt
+
+/-- a query about `agents=sub` at a point of any length: the rows are selected first (`KeyError` / `IndexError`), then the
+    point meets them -/
+def withPoint {α : Type} (s : ESpace) (viaCdist : Bool) (pt : Pos) (sub : Option (List Aid)) (f : Pos → Except Err α) :
+    Except Err α :=
+  match (match sub with | none => (.ok [] : Except Err (List (Aid × Pos))) | some l => rowsOf s l) with
+  | .error e => .error e
+  | .ok _ =>
+    match queryPoint s viaCdist pt with
+    | .error e => .error e
+    | .ok q => f q
+
+def distancesOfV (s : ESpace) (pt : Pos) (sub : Option (List Aid)) : Except Err (List (Aid × Int)) :=
+  withPoint s true pt sub (fun q => distancesOf s q sub)
+
+def diffsOfV (s : ESpace) (pt : Pos) (sub : Option (List Aid)) : Except Err (List (Aid × Pos)) :=
+  withPoint s false pt sub (fun q => diffsOf s q sub)
+
+def agentsInRadiusV (s : ESpace) (pt : Pos) (r : Int) : Except Err (List (Aid × Int)) :=
+  withPoint s true pt none (fun q => .ok (agentsInRadius s q r))
+
+def kNearestV (argpart : List Int → Nat → List Nat) (s : ESpace) (pt : Pos) (k : Nat) : Except Err (List (Aid × Int)) :=
+  withPoint s true pt none (fun q => kNearest argpart s q k)
+
+/-- `in_bounds(p)` / `torus_correct(p)` -/
+def inBoundsV (s : ESpace) (p : Pos) : Except Err Bool := (bcast s.nd p).map (inBounds s.cfg.dims)
+def torusCorrectV (s : ESpace) (p : Pos) : Except Err Pos := (bcast s.nd p).map (torusCorrect s.cfg.dims)
+
+/-! ### references to `space.agent_positions` kept by the user
+`agent_positions` is re-sliced from `_agent_positions` by every add / remove, and `_agent_positions` is re-allocated
+(`np.vstack`) when it is full.  A reference `v = space.agent_positions` the user keeps is a view of rows `0 .. len` of the
+array that was `_agent_positions` when it was taken.  A re-allocation makes the array strictly larger and nothing ever
+shrinks it, so within one history the number of rows names the array: the reference reaches the space's current array iff
+the capacity is still what it was (`C10_exp_capacity_names_the_array`). -/
+
+structure Held where
+  cap : Nat   -- rows of the array it is a view of
+  len : Nat   -- its own length: `_n_agents` when it was taken
+deriving Repr, DecidableEq
+
+/-- `v = space.agent_positions` -/
+def holdView (s : ESpace) : Held := ⟨s.cap, s.view⟩
+
+/-- `v[i] = p` as far as the space is concerned: a write into row `i` of the space's array if `v` still is a view of it,
+    nothing if the array has been re-allocated since (`IndexError` beyond the length the reference has) -/
+def heldWrite (s : ESpace) (v : Held) (i : Nat) (p : Pos) : Except Err ESpace :=
+  if i < v.len then
+    if v.cap = s.cap then .ok { s with buf := upd s.buf i p } else .ok s
+  else .error .index
+
+/-- the space together with the arrays it has dropped (by their number of rows), which only kept references reach -/
+structure HSpace where
+  sp : ESpace
+  orph : Nat → Nat → Pos
+
+def hinit (c : ECfg) (cap : Nat) : HSpace := ⟨einit c cap, fun _ _ => []⟩
+
+/-- after a call that took the space from `h.sp` to `s'`: a re-allocation (`vstack` copies) leaves the old array, as it
+    is, to whoever still refers to it -/
+def HSpace.advance (h : HSpace) (s' : ESpace) : HSpace :=
+  { sp := s', orph := if s'.cap = h.sp.cap then h.orph else upd h.orph h.sp.cap h.sp.buf }
+
+/-- `v[i] = p` -/
+def HSpace.write (h : HSpace) (v : Held) (i : Nat) (p : Pos) : Except Err HSpace :=
+  match heldWrite h.sp v i p with
+  | .error e => .error e
+  | .ok s' =>
+    .ok { sp := s', orph := if v.cap = h.sp.cap then h.orph else upd h.orph v.cap (upd (h.orph v.cap) i p) }
+
+/-- the rows `v` shows -/
+def HSpace.read (h : HSpace) (v : Held) : List Pos :=
+  (List.range v.len).map (if v.cap = h.sp.cap then h.sp.buf else h.orph v.cap)
+
+/-- one call of a history, with the dropped arrays kept -/
+def hstep (h : HSpace) (op : EOp) : HSpace := h.advance (estep h.sp op)
+
+def hrun (c : ECfg) (cap : Nat) (ops : List EOp) : HSpace := ops.foldl hstep (hinit c cap)
 
 end Mesa.Cont
